@@ -145,8 +145,24 @@ def make_ops(seed):
     ops["write-deep-list"] = lambda: hashlib.sha1(enc(P["LIST"], deep)).hexdigest()
     ops["write-read-shallow-list"] = lambda: canon(to_wire(schemaless_reader(io.BytesIO(enc(P["LIST"], shallow)), P["LIST"])))
     ops["read-shallow-list"] = lambda: canon(to_wire(schemaless_reader(io.BytesIO(b_shallow), P["LIST"])))
+    # a field left out of the datum whose default is a record / an array of records: two operations then work on the very
+    # same default objects of the shared parsed schema
+    DEF = {"type": "record", "name": "t.Stop", "fields": [
+        {"name": "n", "type": "int"},
+        {"name": "depot", "type": {"type": "record", "name": "t.Place", "fields": [{"name": "x", "type": "int"}, {"name": "y", "type": "int"},
+                                                                                   {"name": "label", "type": "string"}]},
+         "default": {"x": 0, "y": 0, "label": "home"}},
+        {"name": "via", "type": {"type": "array", "items": "t.Place"}, "default": [{"x": 1, "y": 1, "label": "a"}]},
+        {"name": "alt", "type": ["t.Place", "null"], "default": {"x": 2, "y": 2, "label": "alt"}}]}
+    P["DEF"] = parse_schema(copy.deepcopy(DEF))
+    stop = {"n": 5}
+    ops["write-defaulted-record"] = lambda: enc(P["DEF"], stop).hex()
+    ops["validate-defaulted-record"] = lambda: validate(stop, P["DEF"], raise_errors=False)
+    # resolution with BOTH schemas parsed once and shared
+    P["REC2"] = parse_schema(copy.deepcopy(REC2))
+    ops["resolve-record-shared-reader"] = lambda: canon(to_wire(schemaless_reader(io.BytesIO(b_rec), P["REC"], P["REC2"])))
     ops_shared = [P[k] for k in sorted(P)]
-    raw = {"REC": REC, "LOG": LOG, "LIST": LIST}
+    raw = {"REC": REC, "LOG": LOG, "LIST": LIST, "DEF": DEF, "REC2": REC2}
 
     def refresh():
         """freshly parsed schema objects (no operation has touched them yet) under the same names"""
@@ -492,6 +508,8 @@ def run(tier, seed):
                     outcome(ops[a])
                 finally:
                     sys.settrace(None)
+                if len(extra) > 3 * cap:        # (a change that makes every writer frame a state-writing one: a sample of them)
+                    extra = [extra[int(i * len(extra) / (3.0 * cap))] for i in range(3 * cap)]
                 points = sorted(set(points) | set(extra))
             for k in points:
                 if first_use_changes[a] or first_use_changes[b]:
@@ -507,6 +525,8 @@ def run(tier, seed):
     # ---- an operation that changes shared state (also: the first time it meets a fresh parsed schema) against partners parked
     # where THEY hold one of the shared schema objects in a local variable (iterating over it, say)
     changers = [b for b in names if first_use_changes[b]]
+    if len(changers) > 6 and tier == "quick":
+        changers = sorted(random.Random(seed).sample(changers, 6))
     if changers:
         for a in names:
             refresh()
@@ -554,6 +574,47 @@ def run(tier, seed):
                         case["A_alone"], case["A_interleaved"], case["B_alone"], case["B_interleaved"] = alone[a], ra, alone[b], rb
                         run.fail(case, "a thread's result under an interleaving differs from its sequential result", kind="oracle")
                         break
+    # ---- the same operation in both threads on schema objects neither has met (every schedule starts from freshly parsed
+    # schemas): whatever an operation registers about a schema object the first time it meets it is registered by both
+    for a in names:
+        if len(run.violations) >= 25:
+            break
+        if not (a.startswith("resolve") or a.endswith("-defaulted-record") or (tier != "quick" and a in ("write-record", "read-record", "validate-record", "read-logical", "write-logical"))):
+            continue
+        na = count_points(ops[a])
+        capf = 120 if tier == "quick" else 400
+        pts = list(range(1, na + 1)) if na <= capf else sorted({int(1 + i * na / float(capf)) for i in range(capf)})
+        for k in pts:
+            refresh()
+            ra, rb, where = run_preempted(ops[a], ops[a], k)
+            case = {"A": a, "B": a, "preempt_at": k, "where": where, "fresh_schema_objects": True, "tags": [a, "same-op-fresh-objects"]}
+            run.count(case, True, ["same-op-fresh-objects"])
+            if ra != alone[a] or rb != alone[a]:
+                case["A_alone"], case["A_interleaved"], case["B_alone"], case["B_interleaved"] = alone[a], ra, alone[a], rb
+                run.fail(case, "a thread's result under an interleaving differs from its sequential result", kind="oracle")
+                break
+    # ---- aftermath: what the schedules left behind.  Several hundred further resolutions of schema objects never met before
+    # (bounded tables kept by the package then turn over), then every operation once more, sequentially
+    if len(run.violations) < 25:
+        bad = None
+        for i in range(400):
+            refresh()
+            for nm in ("resolve-record", "resolve-record-shared-reader"):
+                r_ = outcome(ops[nm])
+                run.cov["evaluations"] += 1
+                if r_ != alone[nm] and bad is None:
+                    bad = (nm, i, r_)
+        run.tag("aftermath:fresh-resolutions", 800)
+        if bad:
+            run.fail({"op": bad[0], "alone": alone[bad[0]], "after_the_schedules": bad[2], "fresh_resolution_number": bad[1], "tags": ["aftermath", bad[0]]},
+                     "after the interleaved schedules, an operation run on its own (sequentially) no longer gives its sequential result", kind="oracle")
+        for nm in names:
+            r_ = outcome(ops[nm])
+            run.cov["evaluations"] += 1
+            run.tag("aftermath:every-operation")
+            if r_ != alone[nm]:
+                run.fail({"op": nm, "alone": alone[nm], "after_the_schedules": r_, "tags": ["aftermath", nm]},
+                         "after the interleaved schedules, an operation run on its own (sequentially) no longer gives its sequential result", kind="oracle")
     if tier != "quick":
         # free-running threads with a tiny switch interval
         old = sys.getswitchinterval()
